@@ -42,6 +42,11 @@ pub open spec fn in_alias_chain(src: Source, name: Seq<char>) -> bool
 #[verifier::external_body]
 pub fn verif_name_eq(a: &String, b: &str) -> (r: bool) ensures r == (a@ == b@) { a == b }
 
+/// the real `Option::is_some_and` (ASSUMED contract)
+pub assume_specification<T, F: FnOnce(T) -> bool>[ Option::<T>::is_some_and ](o: Option<T>, f: F) -> (b: bool)
+    requires o matches Some(v) ==> f.requires((v,)),
+    ensures o is None ==> !b, o matches Some(v) ==> f.ensures((v,), b);
+
 /// a word, reduced to what alias substitution asks of it
 pub struct Word { pub location: Location, pub verif_literal: Option<String> }
 impl Word {
@@ -60,12 +65,34 @@ pub trait Glossary {
     fn is_empty(&self) -> (r: bool)
         ensures r ==> self.aliases() =~= Map::<Seq<char>, Rc<Alias>>::empty();
 }
-pub struct Lexer<'b> { pub verif_log: Ghost<Seq<(usize, Rc<Alias>)>>, pub verif_b: core::marker::PhantomData<&'b u8> }
+/// a character of the line buffer with where it came from (the real SourceChar / SourceCharEx; lifted below)
+pub struct SourceChar { pub value: char, pub location: Location }
+/// the lexer core, reduced to its line buffer (the real struct also holds the input object, the read position, ...)
+pub struct LexerCore<'a> { pub source: Vec<SourceCharEx>, pub verif_a: core::marker::PhantomData<&'a u8> }
+pub uninterp spec fn blank(c: char) -> bool;
+/// `c != '\n' && c.is_whitespace()` (std; ASSUMED uninterpreted)
+#[verifier::external_body]
+pub fn is_blank(c: char) -> (r: bool) ensures r == blank(c) { unimplemented!() }
+/// the last character of the text is a blank (string iteration; ASSUMED)
+pub uninterp spec fn text_ends_with_blank(s: Seq<char>) -> bool;
+
+/// "following an alias value that ends with a blank", over the line buffer: going back from the token over blanks and
+/// line continuations only, one reaches the LAST character of the replacement text of an alias whose value ends with a
+/// blank (the character after it no longer comes from that alias)
+pub open spec fn blankish(sc: SourceCharEx) -> bool { sc.is_line_continuation || blank(sc.value.value) }
+pub open spec fn alias_value_ends_at(src: Seq<SourceCharEx>, k: int) -> bool {
+    &&& 0 <= k < src.len()
+    &&& *src[k].value.location.code.source matches Source::Alias { original, alias }
+    &&& text_ends_with_blank(alias.replacement@)
+    &&& !(k + 1 < src.len() && in_alias_chain(*src[k + 1].value.location.code.source, alias.name@))
+}
+pub open spec fn after_blank_ending(src: Seq<SourceCharEx>, index: int) -> bool {
+    exists|k: int| 0 <= k < index && k < src.len() && (forall|j: int| k <= j < index ==> blankish(#[trigger] src[j])) && alias_value_ends_at(src, k)
+}
+
+pub struct Lexer<'b> { pub core: LexerCore<'b>, pub verif_log: Ghost<Seq<(usize, Rc<Alias>)>> }
 impl<'b> Lexer<'b> {
-    /// "or following an alias value that ends with a blank" (LexerCore::is_after_blank_ending_alias; uninterpreted here)
-    pub uninterp spec fn after_blank_ending_alias(&self, index: usize) -> bool;
-    #[verifier::external_body]
-    pub fn is_after_blank_ending_alias(&self, index: usize) -> (r: bool) ensures r == self.after_blank_ending_alias(index) { unimplemented!() }
+    pub open spec fn after_blank_ending_alias(&self, index: usize) -> bool { after_blank_ending(self.core.source@, index as int) }
     /// the in-place splice of the replacement text (LexerCore::substitute_alias): recorded, not modelled
     #[verifier::external_body]
     pub fn substitute_alias(&mut self, begin: usize, alias: &Rc<Alias>)
